@@ -633,7 +633,15 @@ def same_key_other_certificate_case(tag, kind, order, storage):
     # pDig: signed by the same key, the key locator is the certificate's name followed by an implicit digest that is NOT the
     # digest of that certificate: no packet has this full name, so nothing can be retrieved for it
     pDig = make_elem([comp('s'), comp('data'), comp('alice'), comp('d')], b'd', c.holds, list(c.name) + [b'\x01\x20' + b'\x11' * 32])
-    packets = {'pG': pG, 'pGhost': pGhost, 'pDig': pDig}
+    # pForged: the genuine packet with one content byte changed and the SAME signature bytes (and key locator)
+    from ndn.encoding import parse_data as _pd
+    fw = bytearray(pG.wire)
+    _n, _m, cont, _sg = _pd(bytes(fw))
+    at = bytes(fw).find(bytes(cont)) if cont is not None and len(cont) else -1
+    if at >= 0:
+        fw[at] ^= 0x20
+    pForged = Elem(pG.name, fw, None, pG.signer_kid, False, pG.locator, pG.sig_type)
+    packets = {'pG': pG, 'pGhost': pGhost, 'pDig': pDig, 'pForged': pForged}
     lr = LoopRun()
     results = []
     try:
@@ -768,7 +776,8 @@ def run_independence(idx, seed):
                     if errors:
                         out.append(('C14:unhandled-error-in-loop:' + kind, '%s' % errors[:2], inp))
         # one instance, one key, two certificate names: the cache must not make a never-issued certificate acceptable
-        for order in (('pG', 'pGhost'), ('pGhost', 'pG'), ('pG', 'pGhost', 'pG', 'pGhost'), ('pG', 'pDig'), ('pDig', 'pG', 'pDig')):
+        for order in (('pG', 'pGhost'), ('pGhost', 'pG'), ('pG', 'pGhost', 'pG', 'pGhost'), ('pG', 'pDig'), ('pDig', 'pG', 'pDig'),
+                      ('pG', 'pForged'), ('pForged', 'pG', 'pForged')):
             for storage in ('default', 'fresh'):
                 tag = 'g%d-%s-%s-%s-%d' % (idx, kind, '-'.join(order), storage, seed)
                 results, errors, pending, pGhost = same_key_other_certificate_case(tag, kind, order, storage)
